@@ -955,3 +955,23 @@ _run_c13b = run
 def run(ctx, R):
     _run_c13b(ctx, R)
     r137(ctx, R)
+
+
+def r138(ctx, R):
+    """The object-level listing answers from the filtered query on every
+    path: one object per row, no shortcut that answers from somewhere else
+    (a "uuid only" fast path would have to re-state every other filter to be
+    right, and does not)."""
+    from psa.rules import c09
+    n = C.reuse_obligations(
+        ctx, R, c09.r99, 'R13.8',
+        select=lambda o: o.construct == 'get_all_by_filters:every-row')
+    R.count('R13.8', n, 1)
+
+
+_run_c13c = run
+
+
+def run(ctx, R):
+    _run_c13c(ctx, R)
+    r138(ctx, R)
